@@ -72,6 +72,8 @@ def _items(rng):
                 # a character without an ASCII byte: nothing is emitted for it (or the program is rejected); either way the
                 # directive occupies exactly what it emits
                 i = rng.randint(0, len(txt))
+                while i > 0 and txt[i - 1] == "\\":
+                    i -= 1  # never between a backslash and the quote it escapes
                 txt = txt[:i] + rng.choice(["\u00e9", "\u00dc", "\u00bd", "\u6f22\u5b57"]) + txt[i:]
             items.append({"d": "ascii", "s": txt})
         else:
@@ -143,7 +145,25 @@ def run_case(case) -> Outcome:
     return out
 
 
+def _well_formed(text: str) -> bool:
+    """every quote inside the text is escaped and the text does not end in a lone backslash (which would escape the
+    closing delimiter): anything else is not a `.ascii 'text'` statement at all (shrinking can produce such texts)"""
+    i = 0
+    while i < len(text):
+        if text[i] == "\\":
+            if i + 1 >= len(text):
+                return False
+            i += 2
+            continue
+        if text[i] == "'" or text[i] == "\n":
+            return False
+        i += 1
+    return True
+
+
 def _run_case(case) -> Outcome:
+    if any(it["d"] == "ascii" and not _well_formed(it["s"]) for it in case["items"]):
+        return Outcome(skip="a quoted text with an unescaped quote (outside the generated domain)")
     rom, org = case["rom"], case["org"]
     model = busmodel.builtin(rom)
     items = case["items"]
